@@ -16,9 +16,9 @@ RULE = ("interleavings of unitary components (BS 3 conventions, PS, PERM, exact 
         "circuit with one fresh vacuum mode per channel, traced out). Non-trivial: >= 2 channels, one on an interior "
         "mode, with a component between them; distinct by (components, input).")
 TRUSTED = ["model: coq/Model/Loss.v, LossX.v; amplitudes = permanent specification (C02)"]
-ASSUMPTIONS = ["'each photon is removed independently at that point' is proved for a channel fed by a Fock state "
-               "(binomial law) and checked per instance for channels at the input of arbitrary circuits; for "
-               "channels in the middle it is the enlarged-circuit statement that is proved and compared",
+ASSUMPTIONS = ["'each photon is removed independently at that point' is proved as a Kraus identity on amplitudes for one "
+               "channel between two arbitrary blocks (Props/C07ext.v); the leading-channel case is additionally compared "
+               "exactly with binomial thinning of the input, model against model",
                "tolerance 1e-9"]
 
 
